@@ -357,10 +357,11 @@ Definition block_context_ok (c : cfg) (mat cur : N) (s : state) (b : block) : bo
 
 Inductive verdict := Accepted (s : state) | Rejected | Failed.
 
-(* BlockChain.connectBlock on a block extending the tip: sanity, context, then
-   ChainStore.SaveBlock *)
+(* BlockChain.maybeAcceptBlock / connectBlock on a block extending the tip:
+   height = parent height + 1, sanity, context, then ChainStore.SaveBlock *)
 Definition connect (c : cfg) (mat cur : N) (s : state) (b : block) : verdict :=
-  if block_sanity_ok b && block_context_ok c mat cur s b && (b_prev b =? s_tip s) then
+  if block_sanity_ok b && block_context_ok c mat cur s b && (b_prev b =? s_tip s)
+     && (b_height b =? cur + 1) then      (* maybeAcceptBlock: "wrong block height" *)
     match save_block s b with Ok s' => Accepted s' | _ => Failed end
   else Rejected.
 
